@@ -539,6 +539,17 @@ def aggStep (self : V) (a : Agg) (target : V) (tree : List (V × V)) : Except Er
     | none => .error (err "TypeError")
   | .unbound => .error (err "TypeError")             -- agg() missing 1 required positional argument
 
+/-- the Fold-family aggregators that take a subspec -/
+inductive FoldKind where
+  | sum | flatten | merge
+  deriving Repr, Inhabited, BEq, DecidableEq
+
+/-- the aggregation such a Fold does with the VALUE of its subspec -/
+def FoldKind.agg : FoldKind → Agg
+  | .sum => .sum .ident
+  | .flatten => .flatten .ident
+  | .merge => .merge .ident
+
 /-! ### Group specs -/
 
 inductive GSpec where
@@ -548,6 +559,8 @@ inductive GSpec where
   | fn (f : Fn)                                    -- a callable / T-expression in value position
   | limit (oid : Nat) (n : Nat) (sub : GSpec)      -- Limit(n, subspec)
   | nested (gid : Nat) (g : GSpec)                 -- the Group object number `gid` (spec g) in value position
+  | foldG (oid : Nat) (kind : FoldKind) (gid : Nat) (g : GSpec)
+                                                   -- Sum / Flatten / Merge (object `oid`) whose SUBSPEC is the Group object `gid`
   deriving Repr, Inhabited, BEq
 
 /-- the sub-tree dict stored in slot `k` (`tree[k]`): KeyError if absent; if the slot does
@@ -597,6 +610,20 @@ def gstep : GSpec → V → List (V × V) → Except Err (V × List (V × V))
     match f.apply target with
     | .ok v => .ok (v, tree)
     | .error e => .error e
+  | .foldG oid kind _ g, target, tree =>
+    -- Fold.glomit in Group mode, `scope.get(CUR_AGG) is None`: this Fold IS the aggregator
+    -- (`scope[CUR_AGG] = self`); `target = scope[glom](target, self.subspec, scope)`: the subspec is a
+    -- Group, and Group.glomit starts over in its own child scope — `scope[MODE] = GROUP`,
+    -- `scope[CUR_AGG] = None` (the tripwire the outer Fold set is RESET: the inner Group's own Fold
+    -- leaves aggregate, they do not fold each item), `scope[ACC_TREE] = {}`; then
+    -- `return self._agg(target, scope[ACC_TREE])` with the inner result, in the outer tree
+    match iterOf target with
+    | none => .error (err "UnregisteredTarget")
+    | some items =>
+      if let .str _ := target then .error (err "UnregisteredTarget") else
+      match loopWith (gstep g) items (emptyOf g) [] with
+      | .ok v => aggStep (.obj oid) kind.agg v tree
+      | .error e => .error e
   | .nested _ g, target, tree =>
     -- Group.glomit in its own child scope: a fresh ACC_TREE; the outer tree is not touched
     match iterOf target with
